@@ -26,16 +26,27 @@ use serde::{Deserialize, Serialize};
 
 /// run every parser-side consumer of an application fragment; returns a short classification
 pub fn exercise_fragment(bytes: &[u8], zero_len: bool) -> &'static str {
-    let options = if zero_len { ParseOptions::parse_everything() } else { ParseOptions::default() };
+    let options = if zero_len {
+        ParseOptions::parse_everything()
+    } else {
+        ParseOptions::default()
+    };
     let p = match ParsedFragment::parse(options, bytes) {
         Ok(p) => p,
         Err(_) => return "header_rejected",
     };
-    for level in [AppDecodeLevel::Nothing, AppDecodeLevel::Header, AppDecodeLevel::ObjectHeaders, AppDecodeLevel::ObjectValues] {
+    for level in [
+        AppDecodeLevel::Nothing,
+        AppDecodeLevel::Header,
+        AppDecodeLevel::ObjectHeaders,
+        AppDecodeLevel::ObjectValues,
+    ] {
         let s = format!("{}", p.display(level));
         std::hint::black_box(s.len());
     }
-    let _ = p.to_request().map(|r| std::hint::black_box(r.header.function));
+    let _ = p
+        .to_request()
+        .map(|r| std::hint::black_box(r.header.function));
     let _ = p.to_response().map(|r| std::hint::black_box(r.header.iin));
     match p.objects {
         Ok(objs) => {
@@ -53,10 +64,14 @@ pub fn exercise_fragment(bytes: &[u8], zero_len: bool) -> &'static str {
                 std::hint::black_box(cc.hash());
                 let mut buffer = [0u8; 2048];
                 let mut cursor = scursor::WriteCursor::new(&mut buffer);
-                let _ = cc.respond_with_status(&mut cursor, crate::app::control::CommandStatus::NotSupported);
+                let _ = cc.respond_with_status(
+                    &mut cursor,
+                    crate::app::control::CommandStatus::NotSupported,
+                );
                 let mut small = [0u8; 30];
                 let mut cursor = scursor::WriteCursor::new(&mut small);
-                let _ = cc.respond_with_status(&mut cursor, crate::app::control::CommandStatus::Success);
+                let _ = cc
+                    .respond_with_status(&mut cursor, crate::app::control::CommandStatus::Success);
             }
             "objects_accepted"
         }
@@ -139,9 +154,32 @@ impl Prop for Stack {
         }
     }
     fn strategy(_tier: Tier) -> BoxedStrategy<StackCase> {
-        let frame = (prop_oneof![5 => Just(true), 1 => Just(false)], prop_oneof![3 => Just(0xC4u8), 1 => Just(0x44u8), 1 => Just(0xD3u8), 1 => Just(0xC0u8), 1 => Just(0xC9u8), 1 => any::<u8>()], 0u8..6, any::<u32>(), prop_oneof![3 => 0u8..=250, 1 => Just(250u8), 1 => Just(1u8), 1 => Just(0u8)], any::<u8>());
-        (any::<bool>(), any::<bool>(), prop_oneof![Just(249u16), Just(2048), 249u16..=2048], any::<[u8; 4]>(), proptest::collection::vec(frame, 1..12), prop_oneof![Just(0u16), 1u16..400])
-            .prop_map(|(master_role, discard, rx, decode, frames, chunk)| StackCase { master_role, discard, rx, decode, frames, chunk })
+        let frame = (
+            prop_oneof![5 => Just(true), 1 => Just(false)],
+            prop_oneof![3 => Just(0xC4u8), 1 => Just(0x44u8), 1 => Just(0xD3u8), 1 => Just(0xC0u8), 1 => Just(0xC9u8), 1 => any::<u8>()],
+            0u8..6,
+            any::<u32>(),
+            prop_oneof![3 => 0u8..=250, 1 => Just(250u8), 1 => Just(1u8), 1 => Just(0u8)],
+            any::<u8>(),
+        );
+        (
+            any::<bool>(),
+            any::<bool>(),
+            prop_oneof![Just(249u16), Just(2048), 249u16..=2048],
+            any::<[u8; 4]>(),
+            proptest::collection::vec(frame, 1..12),
+            prop_oneof![Just(0u16), 1u16..400],
+        )
+            .prop_map(
+                |(master_role, discard, rx, decode, frames, chunk)| StackCase {
+                    master_role,
+                    discard,
+                    rx,
+                    decode,
+                    frames,
+                    chunk,
+                },
+            )
             .boxed()
     }
     fn run(case: &StackCase) -> CaseOut {
@@ -177,19 +215,44 @@ impl Prop for Stack {
             }
             stream.extend(f);
         }
-        let chunks: Vec<Vec<u8>> = if case.chunk == 0 { vec![stream] } else { stream.chunks(case.chunk as usize).map(|c| c.to_vec()).collect() };
+        let chunks: Vec<Vec<u8>> = if case.chunk == 0 {
+            vec![stream]
+        } else {
+            stream
+                .chunks(case.chunk as usize)
+                .map(|c| c.to_vec())
+                .collect()
+        };
         let (io, mut peer) = pipe(false);
         for c in &chunks {
             peer.send(c);
         }
         peer.close();
         let mut phys = PhysLayer::Verif(io);
-        let modes = LinkModes::stream(if case.discard { LinkErrorMode::Discard } else { LinkErrorMode::Close });
-        let level = decode_level(case.decode[0], case.decode[1], case.decode[2], case.decode[3]);
-        let mut r = if case.master_role {
-            crate::transport::real::reader::Reader::master(modes, EndpointAddress::raw(local), case.rx as usize)
+        let modes = LinkModes::stream(if case.discard {
+            LinkErrorMode::Discard
         } else {
-            crate::transport::real::reader::Reader::outstation(modes, EndpointAddress::raw(local), Feature::Enabled, case.rx as usize)
+            LinkErrorMode::Close
+        });
+        let level = decode_level(
+            case.decode[0],
+            case.decode[1],
+            case.decode[2],
+            case.decode[3],
+        );
+        let mut r = if case.master_role {
+            crate::transport::real::reader::Reader::master(
+                modes,
+                EndpointAddress::raw(local),
+                case.rx as usize,
+            )
+        } else {
+            crate::transport::real::reader::Reader::outstation(
+                modes,
+                EndpointAddress::raw(local),
+                Feature::Enabled,
+                case.rx as usize,
+            )
         };
         let mut delivered = 0;
         for _ in 0..1000 {
@@ -264,7 +327,11 @@ impl Prop for OutstationScript {
         }
     }
     fn floors() -> Vec<(&'static str, u32)> {
-        vec![("inject_in_sol_confirm_wait", 6), ("inject_in_unsol_confirm_wait", 10), ("inject_in_idle", 100)]
+        vec![
+            ("inject_in_sol_confirm_wait", 6),
+            ("inject_in_unsol_confirm_wait", 10),
+            ("inject_in_idle", 100),
+        ]
     }
     fn strategy(tier: Tier) -> BoxedStrategy<ScriptCase> {
         let step = prop_oneof![
@@ -290,7 +357,31 @@ impl Prop for OutstationScript {
             prop_oneof![2 => Just(0u16), 1 => 1u16..300],
             proptest::collection::vec(step, 1..n),
         )
-            .prop_map(|(discard, decode, sol_tx, unsol_tx, rx, unsolicited, event_buffer, max_controls, chunk, steps)| ScriptCase { discard, decode, sol_tx, unsol_tx, rx, unsolicited, event_buffer, max_controls, chunk, steps })
+            .prop_map(
+                |(
+                    discard,
+                    decode,
+                    sol_tx,
+                    unsol_tx,
+                    rx,
+                    unsolicited,
+                    event_buffer,
+                    max_controls,
+                    chunk,
+                    steps,
+                )| ScriptCase {
+                    discard,
+                    decode,
+                    sol_tx,
+                    unsol_tx,
+                    rx,
+                    unsolicited,
+                    event_buffer,
+                    max_controls,
+                    chunk,
+                    steps,
+                },
+            )
             .boxed()
     }
     fn run(case: &ScriptCase) -> CaseOut {
@@ -328,13 +419,46 @@ async fn run_script(case: &ScriptCase) -> CaseOut {
     rig.db(|db| {
         for i in 0..4u16 {
             for ty in 0..8u8 {
-                add_point(db, &PointSpec { ty, index: i, class: 1 + (i % 3) as u8, svar: STATIC_VARS[ty as usize][0], evar: EVENT_VARS[ty as usize][0] });
+                add_point(
+                    db,
+                    &PointSpec {
+                        ty,
+                        index: i,
+                        class: 1 + (i % 3) as u8,
+                        svar: STATIC_VARS[ty as usize][0],
+                        evar: EVENT_VARS[ty as usize][0],
+                    },
+                );
             }
         }
-        add_point(db, &PointSpec { ty: 7, index: 65535, class: 1, svar: 0, evar: 0 });
-        add_point(db, &PointSpec { ty: 0, index: 65535, class: 2, svar: 1, evar: 3 });
-        let _ = db.define_attr(crate::app::attr::AttrProp::default(), crate::app::attr::StringAttr::DeviceManufacturersName.with_value("verif"));
-        let _ = db.define_attr(crate::app::attr::AttrProp::writable(), crate::app::attr::StringAttr::UserAssignedLocation.with_value("here"));
+        add_point(
+            db,
+            &PointSpec {
+                ty: 7,
+                index: 65535,
+                class: 1,
+                svar: 0,
+                evar: 0,
+            },
+        );
+        add_point(
+            db,
+            &PointSpec {
+                ty: 0,
+                index: 65535,
+                class: 2,
+                svar: 1,
+                evar: 3,
+            },
+        );
+        let _ = db.define_attr(
+            crate::app::attr::AttrProp::default(),
+            crate::app::attr::StringAttr::DeviceManufacturersName.with_value("verif"),
+        );
+        let _ = db.define_attr(
+            crate::app::attr::AttrProp::writable(),
+            crate::app::attr::StringAttr::UserAssignedLocation.with_value("here"),
+        );
     });
     let mut seq = 0u8;
     let mut serial = 0u32;
@@ -342,18 +466,19 @@ async fn run_script(case: &ScriptCase) -> CaseOut {
     let mut last_unsol: Option<(u8, u64)> = None;
     let mut link_damage = false;
     rig.settle().await;
-    let observe = |rig: &mut OutRig, last_sol: &mut Option<(u8, u64)>, last_unsol: &mut Option<(u8, u64)>| {
-        let now = rig.now_ms();
-        for f in rig.take_fragments() {
-            if f.func == func::UNSOLICITED_RESPONSE {
-                *last_unsol = Some((f.seq, now));
-            } else if f.con {
-                *last_sol = Some((f.seq, now));
-            } else {
-                *last_sol = None;
+    let observe =
+        |rig: &mut OutRig, last_sol: &mut Option<(u8, u64)>, last_unsol: &mut Option<(u8, u64)>| {
+            let now = rig.now_ms();
+            for f in rig.take_fragments() {
+                if f.func == func::UNSOLICITED_RESPONSE {
+                    *last_unsol = Some((f.seq, now));
+                } else if f.con {
+                    *last_sol = Some((f.seq, now));
+                } else {
+                    *last_sol = None;
+                }
             }
-        }
-    };
+        };
     observe(&mut rig, &mut last_sol, &mut last_unsol);
     for step in &case.steps {
         if rig.task_failure.is_some() {
@@ -393,8 +518,22 @@ async fn run_script(case: &ScriptCase) -> CaseOut {
                     0 => read_classes(seq, &[1, 2, 3]),
                     1 => read_classes(seq, &[0]),
                     2 => enable_unsol(seq, true, &[1, 2, 3]),
-                    3 => Fragment::request(seq, func::SELECT, ra::h_prefixed8(12, 1, &[(1, ra::crob(3, 1, 5, 5, 0))])),
-                    4 => Fragment::request(seq, func::OPERATE, ra::h_prefixed8(12, 1, &(0..60u8).map(|i| (i, ra::crob(3, 1, 5, 5, 0))).collect::<Vec<_>>())),
+                    3 => Fragment::request(
+                        seq,
+                        func::SELECT,
+                        ra::h_prefixed8(12, 1, &[(1, ra::crob(3, 1, 5, 5, 0))]),
+                    ),
+                    4 => Fragment::request(
+                        seq,
+                        func::OPERATE,
+                        ra::h_prefixed8(
+                            12,
+                            1,
+                            &(0..60u8)
+                                .map(|i| (i, ra::crob(3, 1, 5, 5, 0)))
+                                .collect::<Vec<_>>(),
+                        ),
+                    ),
                     5 => Fragment::request(seq, func::DELAY_MEASURE, vec![]),
                     6 => {
                         let mut o = ra::h_range16(110, 0, 65530, 65535, &[]);
@@ -403,9 +542,17 @@ async fn run_script(case: &ScriptCase) -> CaseOut {
                     }
                     7 => enable_unsol(seq, false, &[1, 2, 3]),
                     8 => Fragment::request(seq, func::READ, ra::h_range8(0, 254, 0, 0, &[])),
-                    9 => Fragment::request(seq, func::READ, ra::h_range8(0, 255, (seq % 2), (seq % 2), &[])),
+                    9 => Fragment::request(
+                        seq,
+                        func::READ,
+                        ra::h_range8(0, 255, (seq % 2), (seq % 2), &[]),
+                    ),
                     10 => Fragment::request(seq, func::READ, ra::h_range8(0, 252, 0, 0, &[])),
-                    _ => Fragment::request(seq, func::WRITE, ra::h_range8(0, 245, 0, 0, &[1, 3, b'x', b'y', b'z'])),
+                    _ => Fragment::request(
+                        seq,
+                        func::WRITE,
+                        ra::h_range8(0, 245, 0, 0, &[1, 3, b'x', b'y', b'z']),
+                    ),
                 };
                 let framed = rig.frame_fragment(MASTER_ADDR, OUTSTATION_ADDR, &f.encode());
                 send_chunked(&mut rig, &framed, case.chunk);
@@ -424,7 +571,11 @@ async fn run_script(case: &ScriptCase) -> CaseOut {
                     (Some((q, _)), true) => q,
                     _ => *s & 0x0F,
                 };
-                let framed = rig.frame_fragment(MASTER_ADDR, OUTSTATION_ADDR, &Fragment::confirm(sq, *pick_unsol).encode());
+                let framed = rig.frame_fragment(
+                    MASTER_ADDR,
+                    OUTSTATION_ADDR,
+                    &Fragment::confirm(sq, *pick_unsol).encode(),
+                );
                 send_chunked(&mut rig, &framed, case.chunk);
             }
             Step::Advance(ms) => {
@@ -461,7 +612,11 @@ async fn run_script(case: &ScriptCase) -> CaseOut {
         rig.send_raw(&rl::encode(0xC9, OUTSTATION_ADDR, MASTER_ADDR, &[]));
         rig.settle().await;
         let tx = rig.take_tx();
-        if !tx.iter().any(|t| matches!(t, Tx::Link { ctrl: 0x0B, dst, .. } if *dst == MASTER_ADDR)) && rig.task_failure.is_none() {
+        if !tx
+            .iter()
+            .any(|t| matches!(t, Tx::Link { ctrl: 0x0B, dst, .. } if *dst == MASTER_ADDR))
+            && rig.task_failure.is_none()
+        {
             out.fail(Fail::new("wedged-link-status", format!("after the script a link status request was not answered with LINK_STATUS; transmitted: {:02x?}", tx)));
         }
         let probe_seq = (seq + 7) & 0x0F;
@@ -469,7 +624,11 @@ async fn run_script(case: &ScriptCase) -> CaseOut {
         let mut answered = false;
         for _ in 0..4 {
             rig.settle().await;
-            if rig.take_fragments().iter().any(|f| f.func == func::RESPONSE && f.fir && f.seq == probe_seq) {
+            if rig
+                .take_fragments()
+                .iter()
+                .any(|f| f.func == func::RESPONSE && f.fir && f.seq == probe_seq)
+            {
                 answered = true;
                 break;
             }
